@@ -75,6 +75,7 @@ def stepC29 (d : DS) (toks : List String) : DS × String :=
       ({ P := ⟨c, e, f, g, t, 100⟩, s := ⟨a, u, b, []⟩ }, "ok")
     | _, _, _, _, _, _, _, _ => (d, "bad-op")
   | ["chg"] => ({ d with chg := true }, "queued")
+  | ["redo"] => (d, "queued")   -- disconnecting and re-connecting the same block changes nothing
   | ["close", id, target] =>
     match nat? id, nat? target with
     | some id, some tg =>
